@@ -41,7 +41,7 @@ func main() {
 	worker.Run(r, worker.Opts{Phase: "copy", Total: r.N(1500, 20000), Batch: 100, Timeout: 15 * time.Minute})
 	if bin := os.Getenv("VERIF_RACE_BIN"); bin != "" {
 		raceDir, _ := os.MkdirTemp("", "verif-c01-race-")
-		defer os.RemoveAll(raceDir)
+		r.Cleanup(func() { os.RemoveAll(raceDir) })
 		worker.Run(r, worker.Opts{Phase: "race", Total: r.N(200, 2500), Batch: 50, Bin: bin, Timeout: 20 * time.Minute,
 			Env: []string{"GORACE=halt_on_error=0 log_path=" + filepath.Join(raceDir, "race")}})
 		mon.ReportRaces(r, raceDir)
